@@ -141,7 +141,8 @@ if __name__ == "__main__" and sys.argv[1] != "benign":
 
 # ----------------------------------------------------------------------------- benign (behaviour-preserving) changes
 BENIGN_CHECKS = {"B1": ["C02", "C03", "C04", "C05", "C06", "C07", "C11"], "B2": ["C01", "C02", "C03", "C04", "C05", "C06", "C11"],
-                 "B3": ["C08", "C04", "C07", "C11"], "B4": ["C09", "C10", "C11", "C06", "C07"], "B5": ["C12", "C13", "C14", "C18", "C07"]}
+                 "B3": ["C08", "C04", "C07", "C11"], "B4": ["C09", "C10", "C11", "C06", "C07"], "B5": ["C12", "C13", "C14", "C18", "C07"],
+                 "B6": ["C16", "C17", "C18", "C06", "C11"], "B7": ["C02", "C03", "C04", "C05", "C06", "C07", "C11"], "B8": ["C12", "C13", "C14", "C07"]}
 
 
 def run_benign(bid, ids, tier):
